@@ -73,7 +73,43 @@ claim("C06", "Labels",
       "Label order itself is not judged. decay-sequential order is semantic and not permuted. One parameter point per type. Trusted: TLC, xarray reindex_like for by-label alignment.",
       "DESIGN.md §5 C06")
 
+claim("C10", "Optimizer",
+      "TLA+ spec Optimizer.tla (purity part: memo x -> penalty, provider shapes, snapshot of the caller's inputs; Pure / ShapesStable / InputsUntouched; design-level mutant without 'clear' must violate Pure) explored by TLC; every edge and simulated walks drive the real Optimizer.objective_function on lattice, kinetic and fault schemes, in-process and in subprocesses with NUMBA_NUM_THREADS 1/2/4/16 and a fresh process; event traces validated by OptimizerTrace.tla",
+      "All evaluation sequences of the small graph (with repeats, returns and failing evaluations) plus walks of length 30 are replayed; penalty vectors must be bit-identical for equal x across histories, thread counts and processes; optimize twice gives identical results; the caller's parameters, model and data are compared before/after.",
+      "Content digests identify vectors. Five scheme families. Trusted: TLC, sha digests, hooks (add-only).",
+      "DESIGN.md §5 C10")
+claim("C11", "ParamTransform",
+      "TLA+ specs ParamTransform.tla (class combinations of 1-4 parameters: RoundTrip / NeverHandedOver / OrderConsistent / BoundsPreserved checked by TLC, every set concretised and pushed through the real conversion) and Fit.tla/FitTrace.tla (trace acceptor: bounds at every record, fixed/expression parameters never handed over, one column ordering) validating rank-encoded traces of real fits with all three methods",
+      "Every class combination (vary, expression, non-negative, min/max classes, value classes incl. exactly 1, at bounds, tiny, huge) is replayed on get_label_value_and_bounds_arrays / set_from_label_and_value_arrays; real fits are turned into traces (decoded history rows and the values the model was evaluated with) and accepted step by step by TLC; a corrupted trace must be rejected on every run.",
+      "Floats in traces are replaced by dense order ranks. Column identity observed by forward differences. Trusted: TLC, Json module.",
+      "DESIGN.md §5 C11")
+claim("C12", "ParamExpr",
+      "TLA+ spec ParamExpr.tla: all acyclic expression graphs over N parameters in every declaration order (fan-out), actions Construct / SetFree / Update / Arrays / Copy / SaveLoad, invariants Consistent / Idempotent / PlainKept checked by TLC (the one-pass algorithm is refuted as a design-level mutant); every emitted transition replayed on real Parameters (from_list, from_dict, yml, csv/tsv round trips, copy); 5-6 parameters by simulation; fits validated by FitTrace.tla",
+      "Exhaustive for 3-4 parameters (grammar of 8 operators), simulated behaviours for 5-6; values compared exactly after every step; the values the model is actually evaluated with during fits are checked against the expressions.",
+      "Function symbols enter as operators with exact integer images. Trusted: TLC.",
+      "DESIGN.md §5 C12")
+claim("C15", "Optimizer",
+      "TLA+ spec Optimizer.tla (life-cycle with faults: Reject / Construct / EnterTee / Eval / EvalFail / EvalNaN / SciPyReturns / Swallow / Propagate / ExitTee / Fallback / FinalEval / ResultCalc / BuildResult; invariants StdoutRestored, Contained, Transparent, RejectedBeforeEval, HistoryShape, ResultFromEvaluated, SchemeUntouched; liveness under fairness) model-checked; every fault plan TLC enumerates is run on the real optimize() with a fault megacomplex and the observed outcome must be one of the emitted terminal states; event traces validated by OptimizerTrace.tla",
+      "A fault (exception or non-finite matrix) at every evaluation k = 1..N+1 of the fault-free run incl. the evaluations made while creating the result, three methods, verbose, raise_exception, every kind of invalid scheme, sys.stdout swapped between construction and optimisation.",
+      "Fault is one-shot (the property quantifies over a fault at one evaluation). One recorded finding (NaN inside Levenberg-Marquardt). Trusted: TLC, hooks (add-only).",
+      "DESIGN.md §5 C15", category="fault_enumeration")
+claim("C18", "SaveProtocol",
+      "TLA+ specs SaveProtocol.tla (Protect -> Lookup -> PluginWrite -> UpdateSourcePath over an abstract file system; Refusal / OverwriteOnlyIfAsked / PreexistingUntouched / NoWriteBeforeCheck) and ProjectRuns.tla (Optimize / Remove / Latest / Get / ItemOp; FreshIncreasing / EarlierRunsUnchanged / LatestIsOwnMax / GetIsExact) model-checked exhaustively; every emitted save call and every edge of the run graph replayed on the real save_* functions and a real Project in temp folders; traces of drivers and of the repository's own tests validated by SaveProtocolTrace / ProjectRunsTrace",
+      "Every save function x registered format (+ unknown, + failing plugin) x target state x allow_overwrite x format given/inferred with byte and mtime comparison of all pre-existing files; all histories of <= 4-6 operations over result names sharing prefixes / containing _run_ / containing dots, incl. real Project.optimize runs.",
+      "D4, D10. Trusted: TLC, file-system digests, hooks (add-only).",
+      "DESIGN.md §5 C18", category="fault_enumeration")
+claim("C20", "Validation",
+      "TLA+ spec Validation.tla: hand-written reference schema of every builtin item type; mutants (misspell / drop / delete item / delete parameter / rename / duplicate unique / combine exclusive / shorten label list) enumerated by fan-out from 10 base models; invariants SoundAndComplete (Must = {} <=> AllResolve), ValidFills, GeneratedParametersSuffice, InjectedFaultFound checked by TLC; every mutant built as a real Model and the projected SET of issues compared (Must <= got <= May) on get_issues / validate / valid / Scheme.validate, fill_item and one objective evaluation for valid pairs",
+      "Single and double mutations of 10 base models covering all builtin item types, dict / list / scalar / aliased / nested references; exceptions other than the documented ModelError are violations.",
+      "The hand-written schema is trusted base (cross-checked against introspection as a warning only). Trusted: TLC, Json module.",
+      "DESIGN.md §5 C20")
+
 ENGINES = [
+    {"name": "Optimizer", "path": "spec/Optimizer.tla", "serves_properties": ["C10", "C15"], "kind_free_text": "TLA+ life-cycle + purity state machine, OptimizerEmit, OptimizerWalk, OptimizerTrace; harness/c10*.py, c15*.py"},
+    {"name": "ParamTransform", "path": "spec/ParamTransform.tla", "serves_properties": ["C11"], "kind_free_text": "TLA+ ParamTransform.tla, Fit.tla, FitTrace.tla; harness/c11*.py"},
+    {"name": "ParamExpr", "path": "spec/ParamExpr.tla", "serves_properties": ["C12"], "kind_free_text": "TLA+ ParamExpr.tla, ParamExprEmit, ParamExprSim; harness/c12.py"},
+    {"name": "SaveProtocol", "path": "spec/SaveProtocol.tla", "serves_properties": ["C18"], "kind_free_text": "TLA+ SaveProtocol(+Emit,+Trace), ProjectRuns(+Emit,+Trace); harness/c18*.py"},
+    {"name": "Validation", "path": "spec/Validation.tla", "serves_properties": ["C20"], "kind_free_text": "TLA+ Validation.tla, ValidationEmit; harness/c20*.py"},
     {"name": "Labels", "path": "spec/Labels.tla", "serves_properties": ["C06"], "kind_free_text": "TLA+ Labels.tla + LabelsEmit, LabelPerms.tla; harness/c06.py"},
     {"name": "Intervals", "path": "spec/Intervals.tla", "serves_properties": ["C08"], "kind_free_text": "TLA+ interval envelope (Must/May) + IntervalsEmit; harness/c08.py"},
     {"name": "Objective", "path": "spec/Objective.tla", "serves_properties": ["C02", "C03", "C13", "C14"], "kind_free_text": "TLA+ staged exact pipeline (Objective.tla, ObjectiveCases.tla) over LinAlg.tla; harness/objective.py, lattice.py, c02.py, c03.py, c13.py, c14.py"},
